@@ -1,15 +1,26 @@
 #!/bin/bash
 # usage: tools/try_mutant.sh <patch.diff> <tier> <PROP> [PROP...]
 # Applies a seeded change to /repo's working tree, runs the given checks, restores /repo.
-# Prints one line per property:  <PROP> rc=<exit status>  (1 = caught, 0 = missed, 2 = inconclusive)
+# Prints one line per property:  <PROP> rc=<exit status>  (1 = caught, 0 = missed, 2 = inconclusive) and the
+# monitors that fired.  Never run it while another ./check is running (checks rebuild from /repo's working tree).
 set -u
-patch="$1"; tier="$2"; shift 2
+patch="$(readlink -f "$1")"; tier="$2"; shift 2
 cd /repo || exit 9
 if [ -n "$(git status --porcelain)" ]; then echo "/repo not clean"; exit 9; fi
 git apply "$patch" || { echo "patch does not apply"; exit 9; }
 trap 'git -C /repo checkout -- . ; git -C /repo clean -fdq tests/ 2>/dev/null' EXIT
 cd /verif
 for p in "$@"; do
+  rm -rf "replays/$p"
   out=$(./check "$p" "$tier" 2>/dev/null); rc=$?
-  echo "$p rc=$rc $(echo "$out" | grep -c '^VIOLATION') violation line(s); $(echo "$out" | tail -1 | cut -c1-160)"
+  mons=$(python3 - "$p" <<'PY'
+import json,glob,sys
+m={}
+for f in glob.glob('/verif/replays/%s/*.json'%sys.argv[1]):
+    r=json.load(open(f)); k=(r.get('stage') or '')+':'+r['monitor'] if str(r.get('stage','')).startswith('sanitizer') else r['monitor']
+    m[k]=m.get(k,0)+1
+print(",".join(sorted(m)))
+PY
+)
+  echo "$p rc=$rc monitors=[$mons] $(echo "$out" | tail -1 | cut -c1-140)"
 done
